@@ -194,7 +194,12 @@ func genNode(r *rand.Rand, g genCfg, depth int, parent string) *Node {
 	switch k {
 	case "prim":
 		if g.pre && parent != "" && r.Intn(3) == 0 {
-			return &Node{K: "pre", Ty: pick(r, []string{"ok", "ok", "err", "zerr"}), Def: None, Catch: None, Tests: []Test{}, Pts: []string{}, Kids: []Kid{{Node: genPrim(r, g)}}}
+			inner := genPrim(r, g)
+			kinds := []string{"ok", "ok", "err", "zerr", "mut"}
+			if inner.Ty == "bool" {
+				kinds = kinds[:4] // the marker value 7 has no bool
+			}
+			return &Node{K: "pre", Ty: pick(r, kinds), Def: None, Catch: None, Tests: []Test{}, Pts: []string{}, Kids: []Kid{{Node: inner}}}
 		}
 		return genPrim(r, g)
 	case "custom":
@@ -409,6 +414,8 @@ func genParseInput(r *rand.Rand, n *Node, fe string) *Input {
 
 func genValue(r *rand.Rand, n *Node) *Input {
 	switch n.K {
+	case "pre":
+		return genValue(r, n.Elem())
 	case "prim", "custom":
 		maxv := 4
 		if n.Ty == "bool" {
